@@ -33,7 +33,7 @@ T = {
          "every bijection class a factory can place on the data path satisfies value/mirror agreement; Chain.merge_chains keeps the order (loop, LIFO-stack and recursive forms); the public log_prob only maps NaN to -inf. Does NOT decide the numerical equalities (they follow given C01/C02 of the children).", "3 C03"),
  "C04": ("interval abstract domain (bounded-image proofs) over bijections on flow data paths + structural tail rules",
          "Decides only the surjectivity-typing clause: no bijection placed on a flow's data path (factory layers, default BNAF activation) has a provably bounded image or domain in the interval domain; spline / LeakyTanh tails are the identity / tangent continuation; planar u-constraint keeps w.u > -1; "
-         "sampler and density share one bijection and base and the flow wrapper bijections are mirror-consistent; the spline's only inexact-array pytree leaves are its raw vectors (interval ends static, so conditioners cannot move the knot span away from the tails); every occurrence of the BNAF raw weight sits under a Where(block_tril_mask, ., 0) wrapper (triangular for every parameter value). Does NOT decide that exp(log_prob) integrates to one nor sampler/density goodness of fit (global numerical quantities: not applicable to static analysis).", "3 C04"),
+         "sampler and density share one bijection and base and the flow wrapper bijections are mirror-consistent; the spline's only inexact-array pytree leaves are its raw vectors (interval ends static, so conditioners cannot move the knot span away from the tails); every occurrence of the BNAF raw weight sits under a Where(block_tril_mask, ., 0) wrapper (triangular for every parameter value); fields annotated as Python scalars hold Python values, not trainable array leaves (LeakyTanh's tail constants); Affine / Scale store their parameters broadcast to the declared shape. Does NOT decide that exp(log_prob) integrates to one nor sampler/density goodness of fit (global numerical quantities: not applicable to static analysis).", "3 C04"),
  "C05": ("reference-term comparison + call-site parameter binding + rational-fragment accessor identities",
          "Decides: density and sampler of each standard family name the same family with a full sum over the event shape; constructor arguments reach the bijection parameter of the same role and parameter bijections store broadcast values; accessor(constructor(args)) == args in the rational fragment; "
          "log_prob maps NaN to -inf after vectorisation; mixture density/sampler/weight-normalisation wiring; the parameter bijections (SoftPlus ...) use no overflowing / cancelling exp-log spelling. Does NOT decide agreement with scipy densities or sampler distributions.", "3 C05"),
@@ -62,7 +62,7 @@ T = {
          "Decides: the hook wraps exactly the abstract interface methods and every concrete class obtains each of the four from a class body (112 obligations); installed checks compare whole shape tuples exactly with `is not None` tests (no truthiness on shapes), failing branches raise, checked values are forwarded; constructors call their validators and validators raise on the documented predicate with tuple (non-broadcasting) comparisons - compared as raise-sets (propositionally exact over the atomic tests) when the guards are spelled differently; validators are called on the children's shapes / condition shapes respectively. "
          "Does NOT decide the exact shape of every successful return through arbitrary children.", "3 C13"),
  "C14": ("traced-value taint analysis over the call graph + static-field and effect lint",
-         "Decides: no Python control flow / bool()/int()/float() / numpy / math call on a traced value in any bijection/distribution method, unwrap or the bisection search (~120 functions); no array in a static field; no array bound into a closure or functools.partial stored in a model; no hidden state or foreign randomness; helper-function parameters are traced iff a call site passes a traced value; every non-Module class of the package (jit-static: losses, callables stored in module fields) keeps identity equality or defines an __eq__ that compares the full value of each attribute its other methods read, and stays hashable. "
+         "Decides: no Python control flow / bool()/int()/float() / numpy / math call on a traced value in any bijection/distribution method, unwrap or the bisection search (~120 functions); no array in a static field; no array bound into a closure or functools.partial stored in a model; no hidden state or foreign randomness; helper-function parameters are traced iff a call site passes a traced value; every non-Module class of the package (jit-static: losses, callables stored in module fields) keeps identity equality or defines an __eq__ that compares the full value of each attribute its other methods read, and stays hashable; no jit-compiled nested function reads a variable that a loop of its enclosing function rebinds (trace-time capture); every eqx.error_if is consumed through its result. "
          "Does NOT decide numerical equality of jitted and eager results nor equinox's serialisation.", "3 C14"),
  "C15": ("reaching-definition dataflow on a hand-built CFG + train/val taint + PRNG-key typestate",
          "Decides: co-permutation with one key and complementary slices of one bound (partition); per-epoch shuffles with fresh keys rebuilt only from themselves; prefix batching with one batch size and strict zip; no validation-derived value reaches step; every per-batch step/loss call gets a key that changes with the iteration; caller/callee argument order. "
